@@ -532,7 +532,7 @@ def load_known():
 def report(ctx, replay, key, found_input, text, site=None):
     for k in load_known():
         if ctx.prop in [k.get('property')] + list(k.get('also', [])) and k.get('status') == 'known' and \
-                (k.get('key') == key or (site and k.get('site') == site)):
+                ((key is not None and k.get('key') == key) or (site and k.get('site') == site)):
             line = 'KNOWN-FINDING: property=%s %s' % (ctx.prop, k.get('what', text))
             if line not in ctx.known:
                 ctx.known.append(line)
